@@ -46,6 +46,26 @@ CLAIMED["C20"] = (
     "Affine invariance is asserted only below cond(Cov)=1e13 (the documented regularisation branch is beyond); tolerances include the rounding already present in the mapped inputs.",
     "DESIGN.md §2 C20",
 )
+CLAIMED["C19"] = (
+    "exploration",
+    "property-based testing (Hypothesis): invariants + metamorphic equivariance (scaling/translation/permutation) + parameter recovery on large generated t samples + scripted non-finite fit results for the fallback",
+    "Generated data sets (d 1..8, Gaussian / heavy-tailed / skewed / contaminated, scalings over 12 decades, far translations) are fitted "
+    "twice (original and transformed) and compared; well-posedness invariants are asserted on every fit; recovery of (nu, scale) is tested on "
+    "n=20000 multivariate-t samples; ModeStatistics is driven with the fit's nu replaced by nan/+-inf to test the fallback. "
+    "Known finding K5 (nu is always inf) is reported, not hidden.",
+    "Recovery bounds are generous asymptotic ones (25% on nu, 10% on the scale matrix); equivariance tolerance includes the rounding of the transformed inputs.",
+    "DESIGN.md §2 C19",
+)
+CLAIMED["C15"] = (
+    "exploration",
+    "property-based testing (Hypothesis): invariants of GaussianMixture / HierarchicalGaussianMixture on adversarial weighted data + metamorphic replication relation (integer weights == repeated rows under an identical EM schedule)",
+    "Adversarial weighted data sets (separated/overlapping/nested/duplicated/constant coordinate/tiny-huge scale/far from origin; uniform to "
+    "half-zero and 30-sigma log-normal weights; full and diag) are fitted; component weights, covariance symmetry/PSD, means-in-box, label "
+    "range and uniqueness, cluster cap, minimum cluster size and predict/predict_proba on inside/far/duplicate queries are asserted; the "
+    "replication relation pins the meaning of sample weights. Known finding K6 (absolute regularisers break large-scale data) is classified by data spread.",
+    "Replication compared at 1e-8; means-in-box inflated by 1e-6*max|X| for the stated 1e-10 regulariser; predict_proba row sums only asserted for in-box queries.",
+    "DESIGN.md §2 C15",
+)
 
 ALL = [f"C{i:02d}" for i in range(1, 21)]
 
